@@ -154,8 +154,8 @@ class NCHooks(SelfHooks):
         return None
 
 
-def r23(chk, m):
-    R = chk.rule('R2.3', 'NewCommand.invoke reads exactly nargs arguments: with an optional-argument default (even an empty one) '
+def r23(chk, m, rule_id='R2.3'):
+    R = chk.rule(rule_id, 'NewCommand.invoke reads exactly nargs arguments: with an optional-argument default (even an empty one) '
                  'the first is read with the [] delimiters and that default, the remaining nargs-1 are mandatory; without one all '
                  'nargs are mandatory; #n is the n-th read', 3)
     fn = m.func('plasTeX', 'NewCommand.invoke')
